@@ -225,7 +225,7 @@ dwvw_read_i (SF_PRIVATE *psf, int *ptr, sf_count_t len)
 	while (len > 0)
 	{	readcount = (len > 0x10000000) ? 0x10000000 : (int) len ;
 
-		count = dwvw_decode_data (psf, pdwvw, ptr, readcount) ;
+		count = dwvw_decode_data (psf, pdwvw, ptr + total, readcount) ;
 
 		total += count ;
 		len -= count ;
@@ -596,7 +596,7 @@ dwvw_write_i (SF_PRIVATE *psf, const int *ptr, sf_count_t len)
 	while (len > 0)
 	{	writecount = (len > 0x10000000) ? 0x10000000 : (int) len ;
 
-		count = dwvw_encode_data (psf, pdwvw, ptr, writecount) ;
+		count = dwvw_encode_data (psf, pdwvw, ptr + total, writecount) ;
 
 		total += count ;
 		len -= count ;
